@@ -161,7 +161,7 @@ static int cmd_verify(void) {
 	if (!strcmp(api, "verifier") && !kv("uservc")) {
 		rc = KSI_VerificationContext_init(&vc, c);
 		if (rc != KSI_OK) { KSI_DataHash_free(dh); KSI_PublicationData_free(pd); KSI_Policy_free(custom); kx_out(" stage=ctxinit"); return rc; }
-		vc.signature = s; vc.documentHash = dh; vc.docAggrLevel = kvu("lvl", 0); vc.userPublication = pd; vc.extendingAllowed = (int)kvl("ext", 0);
+		vc.signature = s; vc.documentHash = dh; vc.docAggrLevel = kvu("lvl", 0); vc.userPublication = pd; if (!kv("ext") || strcmp(kv("ext"), "default")) vc.extendingAllowed = (int)kvl("ext", 0);
 		if (kv("pubfile")) vc.userPublicationsFile = pubfiles[kvl("pubfile", 0)];
 		rc = KSI_SignatureVerifier_verify(pol, &vc, &res);
 		out_result(res);
@@ -172,7 +172,7 @@ static int cmd_verify(void) {
 	} else if (!strcmp(api, "withpolicy") && kv("docin")) {
 		/* document hash and level travel in the caller's context, the explicit arguments are NULL / 0 (the calling pattern of KSI_Signature_parseWithPolicy) */
 		KSI_VerificationContext_init(&vc, c);
-		vc.documentHash = dh; vc.docAggrLevel = kvu("lvl", 0); vc.userPublication = pd; vc.extendingAllowed = (int)kvl("ext", 0);
+		vc.documentHash = dh; vc.docAggrLevel = kvu("lvl", 0); vc.userPublication = pd; if (!kv("ext") || strcmp(kv("ext"), "default")) vc.extendingAllowed = (int)kvl("ext", 0);
 		if (kv("pubfile")) vc.userPublicationsFile = pubfiles[kvl("pubfile", 0)];
 		if (!strcmp(kv("docin"), "parse")) {
 			unsigned char *raw = NULL; size_t n = 0; KSI_Signature *s2 = NULL;
@@ -188,8 +188,13 @@ static int cmd_verify(void) {
 		int ci = atoi(tok[1]); KSI_VerificationContext *u = &uservc[ci];
 		if (!uservc_init[ci]) { rc = KSI_VerificationContext_init(u, c); if (rc != KSI_OK) { KSI_DataHash_free(dh); KSI_PublicationData_free(pd); KSI_Policy_free(custom); kx_out(" stage=uservc-init"); return rc; } uservc_init[ci] = 1; }
 		uservc_sane(ci);
-		u->signature = s; KSI_DataHash_free(uservc_doc[ci]); uservc_doc[ci] = dh; u->documentHash = dh; dh = NULL; u->docAggrLevel = kvu("lvl", 0);
-		u->userPublication = pd; u->extendingAllowed = (int)kvl("ext", 0);
+		if (kv("reuse") && u->signature == s) {
+			/* reuse=1: the context is used once more exactly as the previous verification left it (an application that fills its context in once and runs several policies) */
+			kx_out(" reused=1");
+		} else {
+			u->signature = s; KSI_DataHash_free(uservc_doc[ci]); uservc_doc[ci] = dh; u->documentHash = dh; dh = NULL; u->docAggrLevel = kvu("lvl", 0);
+			u->userPublication = pd; if (!kv("ext") || strcmp(kv("ext"), "default")) u->extendingAllowed = (int)kvl("ext", 0);
+		}
 		rc = KSI_SignatureVerifier_verify(pol, u, &res);
 		out_result(res);
 		KSI_PolicyVerificationResult_free(res);
@@ -200,7 +205,7 @@ static int cmd_verify(void) {
 		uservc_sane(ci);
 		/* no document hash for this call: none in the context either. With an explicit one, whatever an earlier call left in the context stays there - the explicit argument has to win */
 		if (!dh) { u->documentHash = NULL; u->docAggrLevel = 0; KSI_DataHash_free(uservc_doc[ci]); uservc_doc[ci] = NULL; }
-		u->extendingAllowed = (int)kvl("ext", 0);
+		if (!kv("ext") || strcmp(kv("ext"), "default")) u->extendingAllowed = (int)kvl("ext", 0);
 		d0 = u->documentHash; l0 = u->docAggrLevel; s0 = u->signature;
 		if (s0 != NULL && s0 != s) kx_out(" stalesig=1");
 		if (d0 != NULL) kx_out(" staledoc=1");
@@ -210,7 +215,7 @@ static int cmd_verify(void) {
 	} else if (!strcmp(api, "withpolicy")) {
 		if (pd || kv("pubfile") || kv("ext")) {
 			KSI_VerificationContext_init(&vc, c);
-			vc.userPublication = pd; vc.extendingAllowed = (int)kvl("ext", 0);
+			vc.userPublication = pd; if (!kv("ext") || strcmp(kv("ext"), "default")) vc.extendingAllowed = (int)kvl("ext", 0);
 			if (kv("pubfile")) vc.userPublicationsFile = pubfiles[kvl("pubfile", 0)];
 			rc = KSI_Signature_verifyWithPolicy(s, dh, kvu("lvl", 0), pol, &vc);
 			vc.userPublication = NULL; vc.userPublicationsFile = NULL;
